@@ -640,16 +640,37 @@ Proof.
   destruct (nodup_bytes _); split; try reflexivity; discriminate.
 Qed.
 
-(* default filters name declared statuses, one per requested filter, in order *)
+(* default filters name declared statuses, one per requested filter, in order, each by the
+   name its enum value carries *)
 Lemma default_filters_spec : forall e l fl, default_filters e l = Some fl ->
   Forall (fun f => existsb (bytes_eqb f) (e_status e) = true) l
-  /\ fl = map (fun f => to_screaming_snake (e_name e) ++ bs "_STATUS_" ++ to_screaming_snake f) l.
+  /\ fl = map (status_value_name (status_prefix e)) l.
 Proof.
   intros e l. induction l as [|f l IH]; intros fl H; cbn [default_filters] in H.
   - inversion H. split; [constructor|reflexivity].
   - unfold find_status in H. destruct (existsb (bytes_eqb f) (e_status e)) eqn:Ef; [|discriminate].
     destruct (default_filters e l) as [t|]; [|discriminate]. inversion H; subst.
     destruct (IH t eq_refl) as [HF ->]. split; [constructor; assumption|reflexivity].
+Qed.
+
+Lemma number_from_names : forall l i p, map fst (number_from i p l) = map (status_value_name p) l.
+Proof. induction l as [|s l IH]; intros i p; [reflexivity|]. cbn. now rewrite IH. Qed.
+
+(* ... hence every default filter IS the name of a value of the status enum *)
+Theorem default_filters_are_enum_values : forall e fl f,
+  default_filters e (requested_filters e) = Some fl -> In f fl ->
+  In f (map fst (status_values (status_prefix e) (e_status e))).
+Proof.
+  intros e fl f H Hf. destruct (default_filters_spec e _ fl H) as [HF ->].
+  apply in_map_iff in Hf. destruct Hf as [s [<- Hs]].
+  rewrite Forall_forall in HF. specialize (HF s Hs).
+  apply existsb_exists in HF. destruct HF as [s' [Hin Heq]]. apply bytes_eqb_eq in Heq. subst s'.
+  assert (G : In (status_value_name (status_prefix e) s)
+                 (map (status_value_name (status_prefix e)) (e_status e))) by (now apply in_map).
+  destruct (e_status e) as [|s0 r] eqn:Es; [destruct Hin|].
+  cbn [status_values]. destruct (has_suffix (bs "UNSPECIFIED") s0).
+  - cbn [map fst]. rewrite number_from_names. exact G.
+  - cbn [map fst]. right. rewrite number_from_names. exact G.
 Qed.
 
 (* ---- State / Event shapes, spelled out ------------------------------------------------------ *)
@@ -705,4 +726,25 @@ Theorem legacy_naming_refuted :
 Proof.
   exists (mkE (bs "foo.v1") (bs "FooS") [] [] [] [] [] [] [] None). split; [reflexivity|].
   vm_compute. discriminate.
+Qed.
+
+(* ---- the client API's StateEntity is consistent with the descriptors -------------------------- *)
+Theorem client_view_consistent : forall e fl,
+  let c := client_view e in
+  ce_name c = snake_name e
+  /\ ce_schema c = e_pkg e ++ [46] ++ m_name (state_msg e fl)
+  /\ ce_primary_key c = map uf_name (primary_keys e)
+  /\ ce_events c = map f_json (m_fields (event_type_msg e))
+  /\ length (ce_events c) = length (e_events e)
+  /\ map fst (ce_commands c) = map (fun cmd => command_service_name e cmd ++ bs "Service") (e_commands e)
+  /\ ce_query c = query_prefix e ++ bs "QueryService"
+  /\ map (fun m => http_rule_path (snd m)) (ce_query_methods c) = query_paths e
+  /\ map fst (ce_query_methods c) = [query_prefix e ++ bs "Get"; query_prefix e ++ bs "List"; query_prefix e ++ bs "Events"].
+Proof.
+  intros e fl. cbv zeta. unfold client_view.
+  cbn [ce_name ce_schema ce_primary_key ce_events ce_commands ce_query ce_query_methods].
+  repeat split.
+  - unfold event_type_msg. cbn [m_fields]. now rewrite map_map.
+  - now rewrite map_length.
+  - now rewrite map_map.
 Qed.
